@@ -159,7 +159,7 @@ def register(reg):
     reg.spec("clean(v)", "not ('\\r' in v) and not ('\\n' in v)")
     # the checker itself
     reg.contract(
-        "werkzeug/datastructures/headers.py:_str_header_value", prop=P,
+        "werkzeug/datastructures/headers.py:_str_header_value", prop=P, replay="pure",
         cases=[{"value": "str"}, {"value": "int"}], returns="str",
         ensures=["clean(result)", "implies(isinstance(value, str), result == value)"],
         raises={"ValueError": "isinstance(value, str) and not clean(value)"},
@@ -167,7 +167,7 @@ def register(reg):
     H = reg.model("Headers", cls="werkzeug/datastructures/headers.py:Headers", fields={"_list": "List[Tuple[str, str]]"})
     reg.spec("I_h(self)", "forall(0, len(self._list), lambda i: clean(self._list[i][1]))")
     reg.contract(
-        "werkzeug/datastructures/headers.py:Headers.add", prop="C05,C08", self_model=H,
+        "werkzeug/datastructures/headers.py:Headers.add", prop="C05,C08", self_model=H, replay="method",
         cases=[{"value": "str"}, {"value": "int"}], params={"key": "str"},
         requires=["I_h(self)"],
         ensures=["I_h(self)", "len(self._list) == len(old(self._list)) + 1",
